@@ -850,7 +850,7 @@ impl GdsReader {
 //@ end
 //@ fn gds21/src/read.rs :: impl<R> GdsReader<R> :: fn read_str
 //@   ret r
-//@   sub R5 /std::str::from_utf8\(&data\)\?\.into\(\)/ => vp_from_utf8_into(&data)?
+//@   sub R5 /std::str::from_utf8\(([^;]*?)\)\?\.into\(\)/ => vp_from_utf8_into(\1)?
 //@   spec
 //|     requires old(self).source.wf(),
 //|     ensures final(self).source.step(old(self).source),
